@@ -37,9 +37,11 @@ def ValueIs (d : Dt) (s : Str) (v : Option PyVal) : Prop :=
 
 /-- literals the constructors produce: `Literal(s, datatype=dt, normalize=nz)` for any string, any
     (modelled) datatype or none, either setting of `normalize`; `Literal(v)` for a Python value
-    (documented datatype) -/
-def Built (l : Lit) : Prop :=
-  (∃ dt s nz, mkLex dt s nz = some l) ∨ (∃ v, mkValue v none = some l)
+    (documented datatype); `Literal(old)` / `Literal(old, datatype=dt)` for a literal already built -/
+inductive Built : Lit → Prop
+  | lex {dt : Option Dt} {s : Str} {nz : Bool} {l : Lit} : mkLex dt s nz = some l → Built l
+  | py {v : PyVal} {l : Lit} : mkValue v none = some l → Built l
+  | fromLit {old : Lit} (dt : Option Dt) : Built old → Built (mkFromLit old dt)
 
 /-- the lexical form denotes the stored value: reading it back with the datatype's converter gives the value -/
 def Denotes (l : Lit) : Prop := ∀ v, l.value = some v → castLex l.dt l.lex = some v
